@@ -269,7 +269,8 @@ pub fn run(s: &CsrShape) {
     let mut attrs = Vec::new();
     let mut i = 0;
     while i < s.attrs as usize {
-        let o = oid3();
+        // caller attributes are handed over in DESCENDING encoding order, so an unsorted SET OF is visible
+        let o: Vec<u64> = vec![1, 2, 60 - i as u64];
         x.attr_oids[i] = [o[0], o[1], o[2]];
         let b: u8 = kani::any();
         // a well-formed `SET { OCTET STRING { b } }`, passed through as raw DER by the caller
